@@ -159,7 +159,7 @@ func (o *rx) Evaluate(tx plugintypes.TransactionState, value string) bool {
 		// match[2*i+1] is the end index for capture group i. Group 0 is
 		// the full match, groups 1..N are the parenthesized sub-expressions.
 		for i := 0; i < len(match)/2; i++ {
-			if i == 9 {
+			if i == 10 {
 				return true
 			}
 			// A negative start index means the group did not participate in the match
@@ -201,7 +201,7 @@ func (o *binaryRX) Evaluate(tx plugintypes.TransactionState, value string) bool 
 			return false
 		}
 		for i, c := range match {
-			if i == 9 {
+			if i == 10 {
 				return true
 			}
 			tx.CaptureField(i, c)
